@@ -109,12 +109,57 @@ def run(s):
         storysend_variants(s, ro_txt, state, rng, pool)
     K.fuzz(s, 60 if s.tier == 'quick' else 6000, K.kind_weights(1, 1, 1.0), steps=(5, 20), text='hostile',
            shape_weights=(0.95, 0.02, 0.03, 0.0))
+    through_collection(s, 40 if s.tier == 'quick' else 2500)
     # carried stories / items whose ID tag is blank: they arrive all the same
     K.fuzz(s, 60 if s.tier == 'quick' else 3000, K.kind_weights(1, 1, 0.2), steps=(4, 12), text='plain',
            shape_weights=(0.95, 0.02, 0.03, 0.0), blank_carried=0.5)
 
 
-replay = K.replay_transition
+def through_collection(s, n):
+    """Carried content also arrives intact when the messages go through a collection built from
+    strings - including strings that still hold an XML declaration naming another encoding."""
+    from .. import events as EV
+    for c in range(n):
+        if not s.mine(c):
+            continue
+        rng = s.rng('coll', c)
+        pool = gen.text_pool('hostile')
+        ro_txt = gen.rand_ro(rng, n_stories=rng.randint(1, 4), pool=pool, message_id=1)
+        state = Abs(ro_txt)
+        ids = gen.Ids('Q%d.' % c)
+        docs = [ro_txt]
+        for k in range(rng.randint(1, 5)):
+            docs.append(gen.rand_message(rng, state, rng.choice(CARRYING), 10 + k, ids, pool=pool,
+                                         shape_weights=(0.95, 0.02, 0.03, 0.0)))
+        declared = c % 2 == 0
+        if declared:
+            docs = [('<?xml version="1.0" encoding="ISO-8859-1"?>\n' + d) if not d.lstrip().startswith('<?xml') and
+                    '<!DOCTYPE' not in d else d for d in docs]
+        judge_through_collection(s, docs, declared)
+
+
+def judge_through_collection(s, docs, declared):
+    from .. import events as EV
+    mc, cerr = K.make_collection(s, docs, 'strings', True)
+    if mc is None:
+        return
+    merr, _w = K.merge_collection(s, mc, False)
+    fold_text, n_failed, ferr, applied = K.hand_fold(s, docs, False)
+    EV.drain()
+    s.evaluations += 1
+    s.note_sig(('through-collection', declared, min(len(docs), 6), str(mc) == fold_text))
+    s.hist['through_collection'] += 1
+    if ferr is None and (merr is not None or str(mc) != fold_text):
+        s.custom_violation('carried-content-differs-when-merged-through-a-collection',
+                           {'declared_encoding_in_strings': declared, 'merge_exc': type(merr).__name__ if merr else None},
+                           {'type': 'collection', 'docs': docs, 'declared': declared}, status='collection')
+
+
+def replay(s, data):
+    w = data['witness']
+    if w.get('type') == 'collection':
+        return judge_through_collection(s, w['docs'], w.get('declared', False))
+    K.replay_transition(s, data)
 
 
 def gates(agg, tier):
